@@ -268,6 +268,12 @@ int detect_alignment_format(struct in_buffer*b,int* type)
                 line_len--;
                 if(line[0] == '>'){
                         hints[0]++; /* fasta */
+                        /* a FASTA header is free text: its words say nothing about the file format */
+                        line_number++;
+                        if(line_number == 100){
+                                break;
+                        }
+                        continue;
                 }
 
                 if(strstr(line, "multiple sequence alignment")){
